@@ -7,6 +7,6 @@ else
   export GOTOOLCHAIN=local PATH="/opt/veriftools/go1.26.8/bin:$PATH"
   export VERIF_TOOLCHAIN_FALLBACK=1
 fi
-export GOFLAGS=-mod=mod GOPROXY=off GONOSUMDB='*' GONOSUMCHECK=1 GOFLAGS=-mod=mod
+export GOFLAGS=-mod=mod GOPROXY=off GOSUMDB=off
 export CGO_ENABLED=1
 unset _tc
